@@ -52,6 +52,11 @@ func (Area) Gen(r *rand.Rand, tier string, emit func(string)) {
 	emit("race deadline 0")
 	emit("race deadline 1")
 	emit("race resolvers")
+	// a user-supplied plain logger (no With method of its own) carrying k key/value pairs: the wrappers derived from it
+	// per target / per request must not share a backing array (added for D34: `append(wl.args, args...)` aliased siblings)
+	for _, k := range []int{3, 5} {
+		emit(fmt.Sprintf("race loggers %d", k))
+	}
 	n := 2
 	if tier == "thorough" {
 		n = 12
@@ -146,6 +151,10 @@ func (Area) Exec(input string) string {
 		grpcWebDeadline(f[2] == "1")
 	case "resolvers":
 		resolvers()
+	case "loggers":
+		var k int
+		fmt.Sscan(f[2], &k)
+		loggers(k)
 	case "mixed":
 		var seed int64
 		var n int
@@ -526,6 +535,85 @@ func stragglerHTTP() {
 	close(w.release)
 	<-done
 	time.Sleep(50 * time.Millisecond)
+}
+
+// plainLog implements only bridgelog.PlainLogger (no With / WithComponent): bridgelog wraps it and keeps the
+// attached key/value pairs itself. It reads every argument it is handed, as a real logger formats them.
+type plainLog struct{ sink *int64 }
+
+func (l plainLog) use(args []any) {
+	n := int64(0)
+	for _, a := range args {
+		if s, ok := a.(string); ok {
+			n += int64(len(s))
+		}
+	}
+	if n < 0 {
+		*l.sink = n
+	}
+}
+func (l plainLog) Debug(_ string, a ...any) { l.use(a) }
+func (l plainLog) Info(_ string, a ...any)  { l.use(a) }
+func (l plainLog) Warn(_ string, a ...any)  { l.use(a) }
+func (l plainLog) Error(_ string, a ...any) { l.use(a) }
+
+// loggers: concurrent requests through a transcoding bridge, concurrent Watch calls on the routers and concurrently
+// built resolvers, all deriving their per-target / per-request loggers from ONE user-supplied wrapped plain logger
+// that already carries k key/value pairs (after 3 pairs its slice has spare capacity 2, after 5 pairs 6).
+func loggers(k int) {
+	var sink int64
+	lg := bridgelog.WrapPlainLogger(plainLog{&sink})
+	for i := 0; i < k; i++ {
+		lg = lg.With(fmt.Sprintf("k%d", i), fmt.Sprintf("v%d", i))
+	}
+	pool := fakePool{fakeConn{}}
+	pr := routing.NewPatternRouter(pool, routing.PatternRouterOpts{Logger: lg})
+	sr := routing.NewServiceRouter(pool, routing.ServiceRouterOpts{Logger: lg})
+	rb := reflection.NewResolverBuilder(pool, reflection.ResolverOpts{Logger: lg, PollManually: true})
+	var wg sync.WaitGroup
+	for gi, name := range []string{"a", "b", "c", "d"} {
+		wg.Add(1)
+		go func(gi int, name string) {
+			defer wg.Done()
+			for i := 0; i < 20; i++ {
+				pw, err := pr.Watch(name)
+				if err != nil {
+					continue
+				}
+				sw, _ := sr.Watch(name)
+				d := unaryTarget(name)
+				pw.UpdateDesc(d)
+				sw.UpdateDesc(d)
+				res := rb.Build(name, nopWatcher{})
+				res.ResolveNow()
+				time.Sleep(time.Millisecond)
+				res.Close()
+				pw.Close()
+				sw.Close()
+			}
+		}(gi, name)
+	}
+	hb := webbridge.NewTranscodedHTTPBridge(fixedRouter{unaryTarget("t")}, webbridge.TranscodedHTTPBridgeOpts{Logger: lg})
+	gw := webbridge.NewGRPCWebBridge(silentRouter{unaryTarget("t")}, webbridge.GRPCWebBridgeOpts{Logger: lg})
+	for g := 0; g < 4; g++ {
+		wg.Add(1)
+		go func(g int) {
+			defer wg.Done()
+			for i := 0; i < 60; i++ {
+				ctx, cancel := context.WithTimeout(context.Background(), 20*time.Millisecond)
+				if g%2 == 0 {
+					req := httptest.NewRequest("POST", "/x", strings.NewReader("{}")).WithContext(ctx)
+					hb.ServeHTTP(httptest.NewRecorder(), req)
+				} else {
+					req := httptest.NewRequest("POST", "/t.S/M", strings.NewReader("\x00\x00\x00\x00\x00")).WithContext(ctx)
+					req.Header.Set("Content-Type", "application/grpc-web+proto")
+					gw.ServeHTTP(httptest.NewRecorder(), req)
+				}
+				cancel()
+			}
+		}(g)
+	}
+	wg.Wait()
 }
 
 // mixed: routers under concurrent updates, closes, re-watches and lookups, plus transcoded requests.
